@@ -522,7 +522,17 @@ class Sim(object):
         task_requests = [
             orq_requests.TaskRerunRequest.new(r[0], route=r[1], reset_items=bool(r[2])) for r in reqs
         ]
+        # features of the request, used only to classify findings (never by an oracle)
+        seq = self.c.workflow_state.sequence
+        info = {
+            "default": not reqs,
+            "failed_terminal_task": any(
+                r.get("term") and r.get("status") in ABENDED and r["id"] not in ENGINE_COMMANDS for r in seq),
+            "fail_command_terminal": any(r.get("term") and r["id"] == "fail" for r in seq),
+            "workflow_status": self.status,
+        }
         self.c.request_workflow_rerun(task_requests=task_requests or None)
+        self.h["rerun_info"] = info
         self.h["reruns"] += 1
         self.h["pj"] = {}
         self.h["need_dispatch"] = True
